@@ -64,6 +64,12 @@ def gen_plan(ch: Chooser, tier: str) -> dict[str, Any]:
             acts.append(a)
         triggers.append({'on': {'what': ch.choice(['h+', 'h-']), 'hid': ch.choice(hids), 'n': ch.int(0, 2)},
                          'actions': acts})
+    # re-listings while a handler runs: the listed snapshot is taken before the handler's patch and is processed after
+    # it (a listed object is not 'the freshest by definition')
+    for _ in range(ch.int(0, 2)):
+        triggers.append({'on': {'what': 'h+', 'hid': ch.choice(hids), 'n': ch.int(0, 1)},
+                         'actions': [{'do': 'compact', 'kind': 'widgets', 'delay': ch.choice([0.0, 0.05])},
+                                     {'do': 'close-streams', 'kind': 'widgets', 'how': 'eof', 'delay': ch.choice([0.06, 0.1])}]})
     plan['triggers'] = triggers
     plan['net']['lat_hi'] = ch.choice([0.005, 0.02, 0.1])
     plan['until'] = plan['faults_stop'] + 60.0
